@@ -117,6 +117,10 @@ pub enum CircuitError {
 impl Circuit {
     /// Checks that the circuit only has valid instructions, has inputs andoutputs.
     pub fn validate(&self) -> Result<(), CircuitError> {
+        if self.max_reg_count == 0 {
+            // without registers, not even a single input or output can be stored
+            return Err(CircuitError::EmptyInputs);
+        }
         let max_reg = Reg(self.max_reg_count.saturating_sub(1) as u32);
         if self.input_regs.iter().all(|i| *i == 0) {
             return Err(CircuitError::EmptyInputs);
